@@ -661,7 +661,7 @@ class ProgGen:
         pend = getattr(self, "slm_pending", None)
         if force:
             pend = self.slm_op.get("dmm_id", "dmm_0")
-        if pend is None or self.mode != "ising":
+        if pend is None or self.mode != "ising" or pend not in self.chspecs:
             return
         self.slm_pending = None
         cnt = len([n for n, c in self.chans.items() if c["dmm"] and c["id"] == pend])
